@@ -221,6 +221,8 @@ def run_tlc(
                 violated.append(line.split("Error:")[1].strip())
     if "Error: Deadlock reached" in out:
         violated.append("Deadlock")
+    if "Error: Postcondition" in out and "is false" in out:
+        violated.append("POSTCONDITION")
     if "Assumption" in out and "is false" in out:
         violated.append("Assumption")
     error_trace = ""
